@@ -52,7 +52,7 @@ def run(tools, seed, tier):
         try:
             opath = os.path.join(root, "obs.jsonl")
             p = C.sh([tools.vh, "l1", "-n", str(SIZES[tier]), "-seed", str(seed), "-root", os.path.join(root, "mod"),
-                      "-out", opath, "-shards", str(C.NCPU)], timeout=3600)
+                      "-out", opath, "-shards", str(C.NCPU), "-triples"], timeout=3600)
             if p.returncode != 0:
                 raise RuntimeError("vh l1 failed: " + p.stderr[-2000:])
             obs = [json.loads(l) for l in open(opath)]
